@@ -92,3 +92,39 @@ class OrchWorld(AgentWorld):
         if not self.until(lambda: m.ready_to_run.is_set(), "replication"):
             return "replication never reported done by all agents"
         return None
+
+    def run_algo(self, steps=150):
+        """Orchestrator.run() without scenario: start the computations and let them exchange messages for a while"""
+        self.orch.repair_only = False
+        self.mgt("_orchestrator_run_computations")
+        self.run(max_steps=steps)
+
+    def remove_agents(self, leaving, max_steps=60000):
+        """a scenario event removing the agents `leaving`; returns the repair status the orchestrator reported (None: never)"""
+        import os
+        from pydcop.dcop.scenario import DcopEvent, EventAction
+        from .common import scratch
+        m = self.orch.mgt
+        self.repair_status = []
+        orig = m._dump_repair_metrics
+
+        def dump(status, duration, _o=orig):
+            self.repair_status.append(status)
+            cwd = os.getcwd()
+            os.chdir(str(scratch()))          # the orchestrator writes evtdist_N.yaml / events.yaml in the current directory
+            try:
+                return _o(status, duration)
+            finally:
+                os.chdir(cwd)
+        m._dump_repair_metrics = dump
+        cwd = os.getcwd()
+        os.chdir(str(scratch()))
+        try:
+            evt = DcopEvent("e1", actions=[EventAction("remove_agent", agent=a) for a in leaving])
+            self.mgt("_orchestrator_scenario_event", evt)
+            self.until(lambda: bool(self.repair_status), "repair", max_steps=max_steps)
+        finally:
+            os.chdir(cwd)
+        # let the resume requests and the re-replication messages flow
+        self.run(max_steps=400)
+        return self.repair_status[0] if self.repair_status else None
